@@ -12,8 +12,9 @@ package main
 //     transactions of the archive that mention the account (static or loaded through an address
 //     table), with until <= slot < before, newest first, at most `limit`, grouped by epoch.
 //     The fetcher closure (CAR access + node decoding) is not called.
-//   - parseTransactionAndMetaFromNode / getTransactionAndMetaFromNode (data-frame reassembly,
-//     zstd, decoding) are replaced by table look-ups on the model transaction of the node.
+//   - the calls parseTransactionAndMetaFromNode(txn, ...) / getTransactionAndMetaFromNode(txn, ...)
+//     (data-frame reassembly, zstd, decoding) of the branch are replaced at their call sites by table
+//     look-ups on the model transaction of the node.
 //   - the constant batchSize (100) is scaled to 2 by a rewrite.
 //   - time.Since in txBuffer.add/flush (slow-lock / slow-send logging) yields 0.
 //
@@ -26,7 +27,6 @@ import (
 	"time"
 
 	"github.com/gagliardetto/solana-go"
-	"github.com/ipfs/go-cid"
 	"github.com/rpcpool/yellowstone-faithful/gsfa"
 	"github.com/rpcpool/yellowstone-faithful/gsfa/linkedlog"
 	"github.com/rpcpool/yellowstone-faithful/ipld/ipldbindcode"
@@ -75,21 +75,22 @@ func verifC19GetBeforeUntilSlot(
 		if slot >= before || slot < until {
 			continue
 		}
+		e := slottools.CalcEpochForSlot(slot)
+		if int(e) == verifC19NoGsfaEpoch {
+			continue // no address index was handed over for this epoch (C19.readers decides the reader list)
+		}
 		if t.mentions(last) == 0 {
 			continue
 		}
-		e := slottools.CalcEpochForSlot(slot)
 		res[e] = append(res[e], verifC19Idx.nodeOf[t.id])
 		count++
 	}
 	return res, nil
 }
 
-// models of parseTransactionAndMetaFromNode / getTransactionAndMetaFromNode (storage.go)
-func parseTransactionAndMetaFromNode(
-	transactionNode *ipldbindcode.Transaction,
-	dataFrameGetter func(ctx context.Context, wantedCid cid.Cid) (*ipldbindcode.DataFrame, error),
-) (tx solana.Transaction, meta any, _ error) {
+// models of parseTransactionAndMetaFromNode / getTransactionAndMetaFromNode at their call sites in the
+// index-accelerated branch (rewrites; the private helpers themselves are not referenced)
+func verifC19ParseNode(transactionNode *ipldbindcode.Transaction) (tx solana.Transaction, meta any, _ error) {
 	t := verifC19Idx.nodes[transactionNode]
 	if t == nil {
 		return solana.Transaction{}, nil, errors.New("verif: node outside the model")
@@ -97,10 +98,7 @@ func parseTransactionAndMetaFromNode(
 	return *t.build(), t.meta(), nil
 }
 
-func getTransactionAndMetaFromNode(
-	transactionNode *ipldbindcode.Transaction,
-	dataFrameGetter func(ctx context.Context, wantedCid cid.Cid) (*ipldbindcode.DataFrame, error),
-) ([]byte, []byte, error) {
+func verifC19NodeBytes(transactionNode *ipldbindcode.Transaction) ([]byte, []byte, error) {
 	t := verifC19Idx.nodes[transactionNode]
 	if t == nil {
 		return nil, nil, errors.New("verif: node outside the model")
@@ -133,7 +131,7 @@ func verifC19IndexedBody(scen int) {
 	switch scen {
 	case 0:
 		tpl = []string{"2", "11"}[verifChoice("window", verifParam("templates", 1))]
-		p = verifC19IdxProfiles[verifChoice("profile", verifParam("profiles", 2))]
+		p = verifC19IdxProfiles[verifParam("profile_from", 0)+verifChoice("profile", verifParam("profiles", 2))]
 	case 1:
 		tpl = []string{"1s1", "111"}[verifChoice("window", 2)]
 		p = verifC19IdxProfiles[1]
@@ -178,8 +176,15 @@ func verifC19IndexedBody(scen int) {
 
 	// filter: include is not empty
 	f := &verifC19FilterSpec{}
-	f.vote = verifBool("filter.vote")
-	f.failed = verifBool("filter.failed")
+	if verifParam("sym_flags", 1) == 1 {
+		f.vote = verifBool("filter.vote")
+		f.failed = verifBool("filter.failed")
+	} else { // quick tier: both flags true (no constraint); the flags are decided by C19.filter
+		f.vote, f.failed = true, true
+	}
+	if verifParam("map_order", 0) == 1 {
+		verifMapOrderNondet(true) // `for epochNumber, txns := range epochToTxns` in every order
+	}
 	f.incl, f.excl, f.req = verifC19Lists[p[0]], verifC19Lists[p[1]], verifC19Lists[p[2]]
 	verifC19Idx.incl = f.incl
 	verifC19Idx.failQuery = failing
